@@ -167,20 +167,29 @@ def identity_table(ctx, rid):
     for uid in (0, 33):
         for gid in (0, 33):
             for init in (False, True):
-                for cu in (0, 33):
-                    for cg in (0, 33):
+                for cu, cg, known in ((0, 0, True), (0, 33, True), (33, 0, True), (33, 33, True), (0, 0, False), (0, 33, False)):
+                    if True:
                         if cu != 0 and (uid not in (0, cu) or gid not in (0, cg)):
                             continue          # an unprivileged master cannot be configured to change identity
+                        if not known and not (init and uid):
+                            continue          # (the passwd database is only consulted for initgroups)
                         n += 1
-                        outs = Explorer(f, atom_of=atom_of, call_trace=traces).run(g.entry, {UID: uid, GID: gid, INIT: init, "CURUID": cu, "CURGID": cg, "PWENT": SpecObj(pw_name="user%d" % uid, pw_uid=uid, pw_gid=gid)})
+                        from ..absint import Raises
+                        pwent = SpecObj(pw_name="user%d" % uid, pw_uid=uid, pw_gid=gid) if known else Raises("KeyError")
+                        outs = Explorer(f, atom_of=atom_of, call_trace=traces).run(g.entry, {UID: uid, GID: gid, INIT: init, "CURUID": cu, "CURGID": cg, "PWENT": pwent})
                         outs = [o for o in outs if o.kind == "return"]
-                        row = "uid=%s gid=%s initgroups=%s, running as %s:%s" % (uid, gid, init, cu, cg)
+                        row = "uid=%s gid=%s initgroups=%s, running as %s:%s%s" % (uid, gid, init, cu, cg, "" if known else ", uid %s has no passwd entry" % uid)
                         ctx.need(outs, "%s: set_owner_process has no normal outcome for %s" % (rid, row))
                         for o in outs:
                             tr = [(q.split(".")[-1], v) for q, v in o.env.get(Explorer.TRACE, ())]
                             names_ = [q for q, v in tr]
                             problems = []
-                            if init and ("initgroups", gid) not in tr:
+                            if init and not known:
+                                # a numeric uid without a passwd entry has no name: no group lists it as a member, so what
+                                # initgroups(3) would compute is the group list [gid]
+                                if ("setgroups", (gid,)) not in tr and ("initgroups", gid) not in tr:
+                                    problems.append("the supplementary groups are not set (neither os.setgroups([%s]) nor initgroups): the worker keeps the master's group list although initgroups is on" % gid)
+                            elif init and ("initgroups", gid) not in tr:
                                 problems.append("os.initgroups(user, %s) is not called%s: the worker keeps the master's supplementary groups" % (
                                     gid, "" if gid else " (only the user is configured: cfg.gid is the master's own gid, 0 for root -- the group need not change, the group *list* must)"))
                             if not init and "initgroups" in names_:
@@ -189,11 +198,11 @@ def identity_table(ctx, rid):
                                 problems.append("os.setgid(%s) is not called: the worker keeps the master's primary group" % gid)
                             if uid and uid != cu and not any(q in ("setuid", "setreuid", "setresuid") and v == uid for q, v in tr):
                                 problems.append("os.setuid(%s) is not called: the worker keeps running as the master's user" % uid)
-                            if not gid and any(q in ("setgid", "setgroups", "setregid", "setresgid") for q in names_):
+                            if not gid and any(q in ("setgid", "setregid", "setresgid") or (q == "setgroups" and not init) for q in names_):
                                 problems.append("the primary group is changed although no group is configured")
                             if not uid and any(q in ("setuid", "setreuid", "setresuid") for q in names_):
                                 problems.append("setuid is called although no user is configured")
-                            if any(v not in (uid, gid) for q, v in tr):
+                            if any(v not in (uid, gid, (gid,)) for q, v in tr):
                                 problems.append("an identity call gets something else than the configured id: %s" % (tr,))
                             us = [i for i, q in enumerate(names_) if q in ("setuid", "setreuid", "setresuid")]
                             if us and any(q in ("setgid", "initgroups", "setgroups", "setregid", "setresgid") for q in names_[us[0]:]):
